@@ -31,7 +31,8 @@ Inductive c17_case :=
              (* op 0 = Create, 1 = Update, 2 = Delete of k with the request's Lease: TTL arguments of every operation of
                 every engine batch of the request *)
 | KEngineTtl (e : eng) (prefix : bytes) (ttl_ms : N) (evs : list tev)
-             (fin : list (bytes * option (N * bytes) * wres)).   (* after the last dump, per key: Get(latest), then Create *)
+             (fin : list (bytes * option (N * bytes) * wres))    (* after the last dump, per key: Get(latest), then Create *)
+| KSkipped.  (* a timed scenario whose measured ages came too close to the TTL to be judged: not a case *)
 
 (* ---------- (a) scanner ---------- *)
 
@@ -132,6 +133,7 @@ Definition c17_check (c : c17_case) : bool :=
       | Some V => ttl_final_ok V 1000000 fin
       | None => false
       end
+  | KSkipped => true
   end.
 
 (* ---------- the property on the implementation's observations ---------- *)
@@ -268,9 +270,8 @@ Definition c17_oracle (c : c17_case) : option N :=
       worse (scan_oracle prefix ttl pre [] steps)
             (ok_if (final_oracle (store_after pre steps) fin && (extra =? 0)))
   | KTtlChoice prefix ettl k ttls =>
-      if forallb (N.eqb 0) ttls then None
-      else if is_event_key prefix k then None
-      else Some 0
+      (* time-based expiry is asked for only by the Create of an Event key, and never before the events TTL *)
+      if forallb (fun t => (t =? 0) || (is_event_key prefix k && (ettl <=? t))) ttls then None else Some 0
   | KTtlWrite prefix ettl op lease k ttls =>
       (* time-based expiry is asked for only by the Create of an Event key, and never before the events TTL *)
       if forallb (fun t => (t =? 0) || ((op =? 0) && is_event_key prefix k && (ettl <=? t))) ttls then None else Some 0
@@ -279,4 +280,5 @@ Definition c17_oracle (c : c17_case) : option N :=
       let fin_ok := forallb (fun p => let '(_, got, res) := p in
                                       match got with None => wres_eqb res WOk | Some _ => wres_eqb res WFalse end) fin in
       worse (ttl_oracle e prefix ttl_ms [] evs) (ok_if fin_ok)
+  | KSkipped => None
   end.
